@@ -38,7 +38,7 @@ PROPS = {
     "C11": dict(
         proof_modules=["KsVerif.Proofs.C11", "KsVerif.Proofs.C11Amqp"],
         families=["stages.redis", "stages.amqp", "stages.http", "stages.dns", "stages.kafka",
-                  "stages.redismut", "stages.amqpmut", "stages.httpmut", "stages.kafkamut", "stages.h2c"],
+                  "stages.redismut", "stages.amqpmut", "stages.httpmut", "stages.kafkamut", "stages.h2c", "cost.wide"],
         rule="stages.<proto>mut: the same conversations with 1-3 byte-level mutations (a byte or a 16/32-bit field set to a "
              "boundary value, a truncation) - every item the dissector still emits goes through the stages; "
              "stages.<proto>: the conversations of redis.conv, amqp.conv (every method, tables holding every field type, "
@@ -114,7 +114,7 @@ PROPS = {
     ),
     "C18": dict(
         proof_modules=["KsVerif.Proofs.C18"],
-        families=["kfl.reuse"],
+        families=["kfl.reuse", "kfl.shared"],
         facts=["kfl_eval_stores.json"],
         rule="kfl.reuse: " + KFL_RULE + "the prepared query is evaluated a second time and from 8 goroutines at once, "
              "each result compared with the first; the prepared tree is deep-compared before and after; "
@@ -139,8 +139,8 @@ PROPS = {
                      "not yet proved for all texts"],
     ),
     "C01": dict(
-        proof_modules=["KsVerif.Proofs.C01"],
-        families=["redis.raw", "amqp.raw", "kafka.raw", "kafka.layout", "http2.raw"],
+        proof_modules=["KsVerif.Proofs.C01", "KsVerif.Proofs.C01Amqp"],
+        families=["redis.raw", "amqp.raw", "kafka.raw", "kafka.layout", "http2.raw", "http2.conv"],
         rule="amqp.raw: corpus of frames with lengths far beyond the data, negative lengths, bad frame types and "
              "end octets (each with every two-piece split and both stream ends), every prefix of well-formed halves, "
              "byte corruptions with boundary values, random bytes, random splits; redis.raw: fixed corpus of inputs that historically broke the reader (each with every two-piece split, "
